@@ -308,6 +308,136 @@ func init() {
 			// state mutation oneof (C03.c)
 		}})
 
+	register(&Obligation{ID: "C04.h", Props: []string{"C04"}, Template: "must-precede",
+		Desc: "end of input leaves nothing behind in a batcher, whatever the batch size / time-out: the source runner flushes the key-event batcher before it queues SourceComplete, and after SourceComplete was broadcast it flushes the pending batch of every operator (operatorCluster.flush visits all of them)",
+		Run: func(r *Run) {
+			pe := r.P.Func("workers/sourcerunner", "(*SourceRunner).processEvents")
+			so := r.P.Func("workers/sourcerunner", "(*SourceRunner).sendOperatorEvent")
+			out := r.P.Field("workers/sourcerunner", "SourceRunner", "outputStream")
+			kec := r.P.Field("workers/sourcerunner", "SourceRunner", "keyEventChannel")
+			opsF := r.P.Field("workers/sourcerunner", "SourceRunner", "operators")
+			scT := r.P.TypeName("proto/workerpb", "Event_SourceComplete")
+			clusterFlush := r.P.Func("workers/sourcerunner", "(*operatorCluster).flush")
+			boFlush := r.P.FuncObj("workers/sourcerunner", "(*batchingOperator).Flush")
+			isSC := func(info *types.Info, e ast.Node) bool {
+				found := false
+				inspectValue(info, e.(ast.Expr), func(m ast.Node) bool {
+					if cl, ok := m.(*ast.CompositeLit); ok {
+						if named, ok := info.TypeOf(cl).(*types.Named); ok && named.Obj() == scT {
+							found = true
+						}
+					}
+					return !found
+				})
+				return found
+			}
+			isKeyFlush := func(c *pathsim.Ctx, ev *pathsim.Event) bool {
+				if ev.Kind != pathsim.EvCall || ev.Call == nil || ev.Go {
+					return false
+				}
+				sel, ok := ast.Unparen(ev.Call.Fun).(*ast.SelectorExpr)
+				return ok && sel.Sel.Name == "Flush" && prog.SelField(c.Info, sel.X) == kec
+			}
+			isSendSC := func(c *pathsim.Ctx, ev *pathsim.Event) bool {
+				return ev.Kind == pathsim.EvSend && prog.SelField(c.Info, ev.Chan) == out && isSC(c.Info, ev.Value)
+			}
+			if n := r.mustPrecede(pe.Decl, pe.Name(), "keyEventChannel.Flush", "outputStream<-SourceComplete", isKeyFlush, isSendSC); n == 0 {
+				r.Error("undecided: processEvents no longer queues SourceComplete on outputStream")
+			}
+			// ... and ReorderFetcher.Flush does flush the batch in progress
+			rfFlush := r.P.Func("batching", "(*ReorderFetcher).Flush")
+			rfflush := r.P.FuncObj("batching", "(*ReorderFetcher).flush")
+			r.Site(rfFlush.Decl.Pos(), "ReorderFetcher.Flush flushes the current batch")
+			if !r.alwaysDoes(rfFlush, callTo(rfflush)) {
+				r.Fail(rfFlush.Name()+":flushes", rfFlush.Decl.Pos(), nil, "ReorderFetcher.Flush can return without flushing the batch in progress: the records keyed last never leave the batcher when no time-out is configured")
+			}
+			// sendOperatorEvent, SourceComplete case: the normal return is preceded by operators.flush()
+			info := so.Pkg.TypesInfo
+			var clause *ast.CaseClause
+			inspect(so.Decl.Body, func(nd ast.Node) bool {
+				if cc, ok := nd.(*ast.CaseClause); ok {
+					for _, e := range cc.List {
+						if p, ok := info.TypeOf(e).(*types.Pointer); ok {
+							if named, ok := p.Elem().(*types.Named); ok && named.Obj() == scT {
+								clause = cc
+							}
+						}
+					}
+				}
+				return true
+			})
+			if clause == nil {
+				r.Error("undecided: sendOperatorEvent has no case for SourceComplete")
+				return
+			}
+			r.Site(clause.Pos(), "sendOperatorEvent: SourceComplete broadcast, then every operator flushed")
+			isClusterFlush := func(c *pathsim.Ctx, ev *pathsim.Event) bool {
+				if !callTo(clusterFlush.Obj)(c, ev) {
+					return false
+				}
+				sel, ok := ast.Unparen(ev.Call.Fun).(*ast.SelectorExpr)
+				return ok && prog.SelField(c.Info, sel.X) == opsF
+			}
+			// on every way out of the case that does not carry an error (return nil, or return err on a
+			// path where err was found nil / not tested non-nil) the operators were flushed
+			nOK := 0
+			scSpec := &pathsim.Spec{InlineCalls: true}
+			scSpec.Atom = func(c *pathsim.Ctx, e ast.Expr) (int, bool, bool) {
+				if x, notNil, ok := pathsim.IsNilCompare(c.Info, e); ok {
+					if o := prog.IdentObj(c.Info, x); o != nil && isErrorType(o.Type()) && o.Pos() > clause.Pos() && o.Pos() < clause.End() {
+						return 0, !notNil, true // atom 0: "the broadcast error is non-nil"
+					}
+				}
+				return 0, false, false
+			}
+			scSpec.Step = func(c *pathsim.Ctx, s pathsim.State, ev *pathsim.Event) []pathsim.State {
+				if isClusterFlush(c, ev) {
+					s.A = 1
+					return []pathsim.State{s}
+				}
+				if ev.Kind != pathsim.EvReturn || ev.Pos < clause.Pos() || ev.Pos > clause.End() || len(ev.Results) != 1 {
+					return nil
+				}
+				tv, ok := c.Info.Types[ev.Results[0]]
+				switch {
+				case ok && tv.IsNil():
+				case prog.IdentObj(c.Info, ev.Results[0]) != nil && s.V[0] != pathsim.True:
+				default:
+					return nil // an error is returned
+				}
+				nOK++
+				if s.A == 0 {
+					c.Violate(ev.Pos, "[flush-at-source-complete] sendOperatorEvent reports success for SourceComplete without having flushed the operators' pending batches: the last records of a bounded source stay in a batch that no size or time-out trigger will ever send")
+				}
+				return nil
+			}
+			r.Sim(so.Decl, so.Name(), scSpec)
+			if nOK == 0 {
+				r.Fail(so.Name()+":source-complete-return", clause.Pos(), nil, "the SourceComplete case has no successful return")
+			}
+			// operatorCluster.flush: every operator, no early exit
+			ci := clusterFlush.Pkg.TypesInfo
+			operatorsF := r.P.Field("workers/sourcerunner", "operatorCluster", "operators")
+			okAll := false
+			for _, lp := range fullLoopsOver(ci, clusterFlush.Decl.Body, func(e ast.Expr) bool { return prog.SelField(ci, e) == operatorsF }) {
+				inspect(lp.Body, func(m ast.Node) bool {
+					if call, ok := m.(*ast.CallExpr); ok && r.P.CalleeFunc(ci, call) == boFlush {
+						if sel, ok := ast.Unparen(call.Fun).(*ast.SelectorExpr); ok && lp.IsElem(sel.X) {
+							okAll = true
+						}
+					}
+					if b, ok := m.(*ast.BranchStmt); ok {
+						r.Fail(clusterFlush.Name()+":partial", b.Pos(), nil, "operatorCluster.flush can skip operators (%s)", b.Tok)
+					}
+					return true
+				})
+			}
+			r.Site(clusterFlush.Decl.Pos(), "operatorCluster.flush visits every operator")
+			if !okAll {
+				r.Fail(clusterFlush.Name()+":all", clusterFlush.Decl.Pos(), nil, "operatorCluster.flush does not flush every operator's batcher: the last records of a bounded source stay in a batch that no size or time-out trigger will ever send")
+			}
+		}})
+
 	register(&Obligation{ID: "C04.d", Props: []string{"C04", "C02"}, Template: "who-may+confinement",
 		Desc: "proto.Operator.HandleEventBatch is called only by the single sender goroutine of newBatchingOperator (and the RPC plumbing); routeEvent / broadcastEvent reach operators only through batchingOperator.HandleEvent; the batches channel has one receiver",
 		Run: func(r *Run) {
